@@ -40,6 +40,20 @@ LEVEL_NOTE = "Trusted: scipy.stats chi-square; the probe moves (return False, to
 DESIGN_REF = "DESIGN.md section 3, C09"
 
 
+WORDS = ["zeta", "alpha", "mu", "beta", "omega", "delta"]
+
+
+def name_of(case, i):
+    """Entry names in a generated order (registration order is deliberately not alphabetical)."""
+    order = case.get("name_order") or list(range(len(WORDS)))
+    return WORDS[order[i]]
+
+
+def index_of(case, name):
+    order = case.get("name_order") or list(range(len(WORDS)))
+    return order.index(WORDS.index(name))
+
+
 def make_mc(case, with_calc=False):
     from quansino.mc.core import MonteCarlo
     from quansino.mc.criteria import BaseCriteria
@@ -65,7 +79,7 @@ def make_mc(case, with_calc=False):
         warnings.simplefilter("ignore")
         mc = MonteCarlo(atoms, max_cycles=case["cycles"], seed=case["seed"])
         for i, (interval, weight, minimum) in enumerate(case["table"]):
-            mc.add_move(Probe(), criteria=Never(), name=f"m{i}", interval=interval, probability=float(weight), minimum_count=minimum)
+            mc.add_move(Probe(), criteria=Never(), name=name_of(case, i), interval=interval, probability=float(weight), minimum_count=minimum)
     return mc
 
 
@@ -89,7 +103,8 @@ def table_st(draw, stat=False):
             minimum = 0
         budget -= minimum
         table.append([interval, weight, minimum])
-    case = {"table": table, "cycles": cycles, "seed": draw(st.integers(0, 2 ** 32)), "nothing_due_class": nothing_due_class}
+    case = {"table": table, "cycles": cycles, "seed": draw(st.integers(0, 2 ** 32)), "nothing_due_class": nothing_due_class,
+            "name_order": list(draw(st.permutations(list(range(len(WORDS))))))}
     if stat:
         case["steps"] = draw(st.sampled_from([3000, 4000]))
     else:
@@ -111,6 +126,7 @@ def check_step(case, step, names, where):
     if len(names) != cycles:
         return ("cycle-count", f"{where}: step {step}: {len(names)} moves scheduled for max_cycles={cycles}"), labels
     cnt = Counter(names)
+    cnt = Counter({f"m{index_of(case, nm)}": c for nm, c in cnt.items()})
     for nm, c in cnt.items():
         i = int(nm[1:])
         if i not in due:
@@ -205,14 +221,15 @@ def run_stat(case):
             due = tuple(i for i, (iv, w, mn) in enumerate(table) if step % iv == 0)
             if not due:
                 continue
-            cnt = Counter(names)
+            cnt = Counter(f"m{index_of(case, nm)}" for nm in names)
             c = free.setdefault(due, Counter())
             for i in due:
                 c[i] += cnt.get(f"m{i}", 0) - table[i][2]
             # consecutive pairs of slots in steps without forced entries are all free picks
             if all(table[i][2] == 0 for i in due):
                 pc = pairs.setdefault(due, Counter())
-                for a, b in zip(names[:-1:2], names[1::2]):
+                idx = [f"m{index_of(case, nm)}" for nm in names]
+                for a, b in zip(idx[:-1:2], idx[1::2]):
                     pc[(a, b)] += 1
     nontrivial = False
     keys = []
